@@ -53,6 +53,9 @@ type Decl struct {
 	// same file, so that the shared name allocator has already handed out ctx, and this injector's
 	// context parameter is called ctx0 ("several injectors per file").
 	Prelude string
+	// Large marks the shapes beyond the small-scope universe (up to a dozen providers, up to ten goroutines);
+	// they are explored with partial-order reduction only.
+	Large bool
 }
 
 func (d *Decl) Spec() string {
